@@ -14,9 +14,12 @@ package main
 
 import (
 	"encoding/json"
+	"fmt"
 	"math/rand"
+	"os"
 	"sort"
 	"strings"
+	"time"
 
 	"go.dedis.ch/kyber/v3/suites"
 	"go.dedis.ch/onet/v3"
@@ -120,6 +123,12 @@ func run(raw json.RawMessage) lib.Case {
 	var in input
 	if err := json.Unmarshal(raw, &in); err != nil {
 		panic(err)
+	}
+	if os.Getenv("VERIF_C10_DEBUG") != "" {
+		t0 := time.Now()
+		defer func() {
+			fmt.Fprintf(os.Stderr, "TIME %s %v %s\n", in.Kind, time.Since(t0), string(raw)[:min(len(raw), 160)])
+		}()
 	}
 	switch in.Kind {
 	case "script":
@@ -569,3 +578,10 @@ func main() {
 }
 
 var _ = onet.CheckNone
+
+func min(a, b int) int {
+	if a < b {
+		return a
+	}
+	return b
+}
